@@ -412,6 +412,10 @@ def render_type_def(t, lang):
 
 
 def _lit(v):
+    if v == -2 ** 63:
+        return "(-9223372036854775807LL - 1)"
+    if v == -2 ** 31:
+        return "(-2147483647 - 1)"
     if v >= 2 ** 31 or v < -2 ** 31:
         return "%dLL" % v
     return str(v)
@@ -789,6 +793,11 @@ class Gen(object):
             v += r.choice([1, 1, 1, 2, 5, 100])
         if r.random() < 0.1:
             vals.append((self.name("E").upper(), 2 ** 33 + r.randint(0, 9)))    # 64-bit enum (GNU extension in C)
+        elif GEN2 and r.random() < 0.12:
+            # boundary values of the representations libabigail parses enumerators into
+            for b in r.sample([2 ** 63 - 1, -2 ** 63, 2 ** 31 - 1, -2 ** 31, 2 ** 32 - 1, 2 ** 32, -1], r.randint(1, 2)):
+                if b not in [v_ for _n, v_ in vals]:
+                    vals.append((self.name("E").upper(), b))
         e = Enum(self.name("e"), vals)
         self.p.types.append(e)
         return e
@@ -804,6 +813,13 @@ class Gen(object):
             to = Array(self.scalar(), [r.randint(1, 4)])
         elif x < 0.65:
             to = self.pick_named((Record, Typedef, Enum)) or self.scalar()
+        elif x < 0.8 and self.o.anon_compound and self.o.lang == "c":
+            # the C idiom 'typedef struct { ... } name;' / 'typedef enum { ... } name;' (a "naming typedef")
+            if r.random() < 0.75:
+                to = Record("struct" if (r.random() < 0.8 or not self.o.unions) else "union", None, [])
+                to.fields = self.gen_fields(to, 1)
+            else:
+                to = Enum(None, [(self.name("E").upper(), k) for k in range(r.randint(1, 4))])
         else:
             to = self.value_type(1) if r.random() < 0.5 else self.pointer_type(1)
         t = Typedef(self.name("t"), to)
